@@ -50,6 +50,8 @@ def run(ctx):
             cases.append((rng.choice(['sw', 'proj']), [tuple(keys), P.random_key_tuple(rng, d, 3, 1)], []))
         groups.append({'u': ucfg(sig=rng.choice(P.sig_classes(d))), 'opts': {}, 'cases': cases})
     groups += blade_pair_plan(ctx, ['sw', 'proj'], dims=(3, 4, 5), n={3: 64, 4: 256, 5: 200} if q else {3: 64, 4: 256, 5: 1024})
+    from plans import mirrored_wrapper_groups
+    groups += mirrored_wrapper_groups(ctx, ['sw', 'proj'])
     run_plan(ctx, groups, budget=60)
     return ctx.finish(
         rule='case = (configuration, options {cse, symbol class}, operator in {sw, proj, normsq}, ordered key tuples) on formal '
